@@ -1075,6 +1075,9 @@ func enumerateCrashPoints(w *Workload, lt *lifetime, model *Model, exists map[st
 	var clean []int
 	sampleDone := false
 	for _, k := range ks {
+		if pastDeadline(res) {
+			break
+		}
 		for applied < k {
 			if log[applied].Mutating() {
 				img.Apply(log[applied])
